@@ -231,6 +231,15 @@ type Exec struct {
 }
 
 func NewExec(w *World) *Exec {
+	e := newExec0(w)
+	e.ghostNames = map[string]bool{}
+	for k := range GhostNamesSeen {
+		e.ghostNames[k] = true
+	}
+	return e
+}
+
+func newExec0(w *World) *Exec {
 	e := &Exec{W: w, initHeap: map[string]*smt.Term{}, heapSort: map[string]*smt.Sort{}, counters: map[string]int{},
 		MaxInline: 6, Abstracted: map[string]bool{}}
 	e.alloc0 = smt.Var("alloc0", BV64)
@@ -485,7 +494,7 @@ func (e *Exec) merge(ss []*State) *State {
 				return t
 			}
 			if strings.HasPrefix(k, "G|") {
-				return smt.Var("g0|"+k[2:], BV64)
+				return smt.Var("g0|"+k[2:], ghostSort(k[2:]))
 			}
 			return def
 		})
